@@ -8,4 +8,4 @@ Extraction Language OCaml.
 Extraction "extracted/lockedfile/model.ml" Byte.of_N Byte.to_N
   prog_of_call client_prog write_body read_body run_seq run_body fault_at no_faults os_with fresh_fd
   lock_mode_of_flags lock_arg_of_flags strip accmode call_spec
-  init_state exec run.
+  init_state exec run mutex_lock mutex_at mutex_string can_grant drop.
